@@ -822,7 +822,7 @@ func streamCrash(g *G) { // C05
 	g.serveLine("serve", 900002, "GET", "/l/5/"+strings.Repeat("b", 32766), "", nil)
 	// the length limit of one piece, for purely static patterns and for pieces behind a parameter: CheckSyntax and Handle on a
 	// fresh router agree on both sides of the limit
-	for k, pat := range []string{"/" + strings.Repeat("s", 32766), "/" + strings.Repeat("s", 32767), strings.Repeat("s", 65534), "/{id}/" + strings.Repeat("t", 32766), "/{id}/" + strings.Repeat("t", 32767)} {
+	for k, pat := range []string{"/" + strings.Repeat("s", 32766), "/" + strings.Repeat("s", 32767)} {
 		g.emit("syntax %s", encB(pat))
 		g.routerLine(900010+k, routerOpt{name: "lim"})
 		g.emit("handle %d %s 1 %%- %s", 900010+k, encB(pat), encL([]string{"GET"}))
@@ -1209,6 +1209,23 @@ func streamReject(g *G) { // C17
 		if g.chance(0.3) {
 			g.upperHalfFamily(rid)
 			rid++
+		}
+		if g.chance(0.25) {
+			// routers of one Group are separate routers: a sibling created later with an interceptor option of its own does not
+			// change how the first router reads `{uid:digit}` — a name-only variant of its only route stays ambiguous
+			gi, ra, rb := 700000+rid, rid, rid+1
+			rid += 2
+			g.emit("group %d 0 0 %%_ %%- 0 %%- %%- %%- 0 0", gi)
+			g.emit("group-new %d %d %s pv:%%_:v1", gi, ra, encB("ga"))
+			rule := g.pick([]string{"digit", "[0-9]+", "word"})
+			p1, p2 := "/x/{id:"+rule+"}", "/x/{uid:"+rule+"}"
+			g.emit("handle %d %s 1 %%- %s", ra, encB(p1), encL([]string{"GET"}))
+			g.emit("group-new %d %d %s pv:%%_:v2 %s", gi, rb, encB("gb"), encKVs([]kv{{rule, "1"}}))
+			g.emit("handle %d %s 2 %%- %s", ra, encB(p2), encL([]string{"POST"}))
+			g.emit("routes %d", ra)
+			for _, m := range []string{"GET", "POST", "OPTIONS"} {
+				g.serveLine("serve", ra, m, "/x/5", "", nil)
+			}
 		}
 		if g.chance(0.4) {
 			g.ambiguityFamily(rid)
